@@ -14,6 +14,10 @@ Reset ==
   /\ vdrops' = [a \in Alloc |-> 0]
   /\ calls' = [a \in Alloc |-> [clone |-> 0, drop |-> 0]]
 
+(* free-running threads: an event carries what its own thread observed of its own slots *)
+LocalOk(e) == \A i \in DOMAIN e.lv : /\ slot'[e.lv[i][1]].kind = e.lv[i][2]
+                                       /\ slot'[e.lv[i][1]].a = e.lv[i][3]
+
 TraceNext ==
   /\ l <= Len(Rec)
   /\ l' = l + 1
@@ -22,6 +26,14 @@ TraceNext ==
        ELSE IF e.op = "quiescent"
          THEN /\ e.ok
               /\ UNCHANGED vars
+       ELSE IF e.op = "sync"      \* all threads have joined: the whole observable state is compared
+         THEN /\ e.ok
+              /\ Proj = e.proj
+              /\ UNCHANGED vars
+       ELSE IF "conc" \in DOMAIN e
+         THEN /\ Do(e)
+              /\ e.ok
+              /\ LocalOk(e)
        ELSE /\ Do(e)
             /\ e.ok
             /\ Proj' = e.proj
